@@ -49,11 +49,11 @@ def main(tier, seed):
     progs = impl.repo_programs()
     try:
         from .. import progen
-        n = 120 if tier == "quick" else 1500
+        n = 120 if tier == "quick" else 600
         progs += [(f"gen/{i}", p.text()) for i, p in enumerate(progen.generate(run.rng, n))]
     except ImportError:
         pass
-    vectors = impl.pairwise_vectors() if tier == "quick" else impl.all_vectors()[::3]
+    vectors = impl.pairwise_vectors() if tier == "quick" else impl.all_vectors()[::5]
     jobs, names = [], []
     for i, (name, src) in enumerate(progs):
         vs = vectors if tier == "thorough" else [vectors[(i + k) % len(vectors)] for k in range(4)]
